@@ -413,13 +413,13 @@ theorem fromBytes_gitEncodeIndex (sha1 : Bytes → Bytes) (hsha : ∀ x, (sha1 x
 
 /-- `tree::decode` as an option (it neither fails nor panics after the repair) -/
 def treeDecodeOpt (data : Bytes) : Option Tree :=
-  match treeOne (data.length + 2) data with
+  match treeOne (data.length + 2) 0 data with
   | none => none
   | some (t, rest) => if rest.isEmpty then some t else none
 
 theorem treeDecode_eq (data : Bytes) : treeDecode data = .ok (treeDecodeOpt data) := by
   unfold treeDecode treeDecodeOpt
-  cases treeOne (data.length + 2) data with
+  cases treeOne (data.length + 2) 0 data with
   | none => rfl
   | some x => obtain ⟨t, rest⟩ := x; simp only []; split <;> rfl
 
